@@ -6,6 +6,7 @@ set -u
 W="$1"; ID="$2"
 V=/verif/seeded/$ID
 cd "$W" || exit 2
+export SEED_ROOT="$W"
 git diff -- sqlparse > /tmp/_seed_patch.$$ 
 [ -s /tmp/_seed_patch.$$ ] || { echo "no diff in $W"; exit 2; }
 SUITE=$(/venv/bin/python -m pytest -q -p no:cacheprovider 2>&1 | tail -1)
